@@ -3,7 +3,8 @@ sys.path.insert(0, "/verif")
 from pyvc.symex import Engine
 from pyvc.load import load_contracts
 from pyvc import prove
-E = Engine()
+import os
+E = Engine(os.environ.get("PYVC_SRC", "/repo/src"))
 load_contracts(E, sys.argv[1].split(","))
 pat = sys.argv[2]
 defs = sys.argv[3] if len(sys.argv) > 3 else None
